@@ -384,11 +384,17 @@ struct Interp {
             long common = (long)std::min(mo.b.size(), other.size());
             long nn = common;
             switch (((op.i(1) % 4) + 4) % 4) { case 0: nn = common; break; case 1: nn = common / 2; break; case 2: nn = common ? 1 : 0; break; default: nn = common; }
+            // ncmp between two objects knows both lengths: a count beyond the shorter one is cut back to it
+            if (n == "cmp" && kind == 1 && !isnull && (op.i(1) % 4 + 4) % 4 == 3) {
+                long longer = (long)std::max(mo.b.size(), other.size());
+                nn = (op.i(2) & 1) ? common + 1 : longer + (op.i(2) & 2 ? 3 : 0);
+                if (nn > common) { ctx.label("ncmp:count-beyond-the-shorter-buffer"); if (mo.b.size() != other.size()) interesting = true; }
+            }
             int r, want;
             if (n == "cmp") {
                 r = LA(c07_cmp(kind, cur, o, nn));
                 if (isnull) { want = 1; ctx.label("cmp:null-other"); }
-                else if (kind == 1) want = sgn(memcmp(mo.b.data(), other.data(), (size_t)nn));
+                else if (kind == 1) want = sgn(memcmp(mo.b.data(), other.data(), (size_t)std::min(nn, common)));
                 else { want = sgn(memcmp(mo.b.data(), other.data(), (size_t)common)); if (!want) want = mo.b.size() < other.size() ? -1 : mo.b.size() > other.size() ? 1 : 0; if (mo.b.size() != other.size() && !memcmp(mo.b.data(), other.data(), (size_t)common)) { ctx.label("cmp:proper-prefix-pair"); interesting = true; } }
             } else {
                 // the pointer variants cannot know the other side's length: n <= both lengths (carve-out)
